@@ -203,7 +203,8 @@ def build_call(L, tool, par, S, F, rec):
         return lambda: fn(S[0], par["n"], **kw)
     if tool == "any_iter":
         if par["outer"]:
-            return lambda: L.any_iter(Aw(rec, S[0], Node("iterable")))
+            from .instruments import AwIterable  # noqa: PLC0415
+            return lambda: L.any_iter(AwIterable(Aw(rec, S[0], Node("iterable"))))
         return lambda: L.any_iter(S[0])
     if tool == "await_each":
         return lambda: L.await_each(S[0])
